@@ -969,6 +969,45 @@ def id_same(ctx):
                     sig = _base_arc(_x(fn, s_['rv']['ops'][0]))
         if fut is not None and sig is not None:
             same('%s|future-and-signaller-share-the-slot' % short(fn.root or fn.name), 'the slot the signaller fills and the slot the future reads', [fut, sig], fn)
+    # a caller that runs jobs itself (sync, try_sync, a polled future) runs the queue it was called for, and only the pool fetches "whatever
+    # is next on the schedule": a blocked caller that lends its thread to another object's queue cannot return until that object's work is done
+    QFNS = ('JobQueue::drain', 'JobQueue::run_one_job_now', 'JobQueue::dequeue', 'JobQueue::requeue', 'SchedulerCore::claim_pending_queue',
+            'Scheduler::reschedule_queue', 'SchedulerCore::reschedule_queue', 'Scheduler::sync_immediate', 'Scheduler::sync_drain', 'Scheduler::sync_background')
+    nq = 0
+    for fn in F.crate_fns():
+        root = fn.root or fn.name
+        if not any(root.startswith(p_) for p_ in ('desync::Scheduler::sync', 'desync::Scheduler::try_sync', 'desync::SchedulerFuture::', '<desync::SchedulerFuture')):
+            continue
+        for bb, t in fn.calls():
+            name = t['func'].get('fn') or ''
+            if fn.blocks[bb]['cleanup']:
+                continue
+            if name.endswith('SchedulerCore::next_to_run'):
+                nq += 1
+                out.append(bad(R, '%s|runs-its-own-queue' % short(root), '%s takes whatever queue is next on the schedule (`next_to_run`): a caller waiting for its own object runs another object\'s operations and cannot return before they finish' % short(root), loc=fn.loc(bb), fn=fn.name))
+                continue
+            if not name.endswith(QFNS):
+                continue
+            qa = [a for a in t['args'] if a['k'] != 'const' and 'desync::JobQueue' in clean_ty(a['pl']['ty']) and 'JobQueueCore' not in clean_ty(a['pl']['ty'])]
+            if not qa:
+                continue
+            nq += 1
+            e = _base_arc(_x(fn, qa[0]))
+            key = '%s|runs-its-own-queue' % short(root)
+            r_ = e
+            for _ in range(20):
+                if r_[0] in ('field', 'downcast', 'deref', 'index'):
+                    r_ = r_[1]
+                else:
+                    break
+            # the queue comes from the caller (a parameter, `self.queue`, a captured variable), not from a call made here
+            own = r_[0] in ('arg', 'upvar')
+            if own:
+                out.append(ok(R, key, 'works on the queue it was called for', fn=fn.name))
+            else:
+                out.append(bad(R, key, '%s hands `%s` to %s: it runs / claims / reschedules a queue that is not the one it was called for' % (short(root), render(e)[:40], name.split('::')[-1]), loc=fn.loc(bb), fn=fn.name))
     if n < 5:
         out.append(undecided(R, 'floor', 'only %d of the hand-shakes were recognised (expected at least 5)' % n))
+    if nq < 8:
+        out.append(undecided(R, 'floor:own-queue', 'only %d queue operations of the caller-side runners were recognised (expected at least 8)' % nq))
     return out
